@@ -27,7 +27,7 @@ META = {
 
 MODEL = ["theories/Caco/LoadCorr.vo"]
 PROOFS = ["theories/Props/C11.vo"]
-STATEMENT_FILES = ["theories/Props/C11.v"]
+STATEMENT_FILES = ["theories/Props/C11.v", "theories/Caco/LoadGen.v"]
 
 
 # ------------------------------------------------------------ case -> Coq
